@@ -85,7 +85,7 @@ func (w *encWalker) mapBlock(list []ast.Stmt, out *wout) (string, error, bool) {
 	}
 	ce.set(info.ObjectOf(b0.Lhs[0].(*ast.Ident)), "$baseI")
 	last, ok := body[len(body)-1].(*ast.ReturnStmt)
-	if !ok || len(last.Results) != 2 || types.ExprString(last.Results[1]) != "nil" {
+	if !ok || len(last.Results) < 1 || len(last.Results) > 2 || types.ExprString(last.Results[len(last.Results)-1]) != "nil" {
 		return "", und("map entry closure must end with return …, nil"), true
 	}
 	sub := &wout{}
@@ -134,6 +134,21 @@ func (w *encWalker) callEntry(body []ast.Stmt, e *env, coll, keyTerm string, fnO
 // which is the value of that key, and the lookup statement is absent.
 func (w *encWalker) callEntryV(body []ast.Stmt, e *env, coll, keyTerm string, fnObj types.Object, vPre types.Object) error {
 	info := w.e.info
+	// `if err := entry(k, v); err != nil { return …, err }` (a closure that returns the error alone) is the call followed
+	// by the error check
+	if n := len(body); n > 0 {
+		if is, ok := body[n-1].(*ast.IfStmt); ok && is.Else == nil {
+			if as, ok := is.Init.(*ast.AssignStmt); ok && as.Tok == token.DEFINE && len(as.Lhs) == 1 && len(as.Rhs) == 1 {
+				if call, ok := as.Rhs[0].(*ast.CallExpr); ok && w.isIdent(call.Fun, fnObj) {
+					if sig, ok := info.TypeOf(call.Fun).(*types.Signature); ok && sig.Results().Len() == 1 {
+						two := &ast.AssignStmt{Lhs: []ast.Expr{ast.NewIdent("_"), as.Lhs[0]}, Tok: token.DEFINE, TokPos: as.TokPos, Rhs: as.Rhs}
+						chk := &ast.IfStmt{If: is.If, Cond: is.Cond, Body: is.Body}
+						body = append(append([]ast.Stmt{}, body[:n-1]...), two, chk)
+					}
+				}
+			}
+		}
+	}
 	if vPre != nil {
 		if len(body) != 2 {
 			return und("map loop body must be: entry call, error check")
@@ -306,20 +321,51 @@ func (w *encWalker) sortedMapLoop(list []ast.Stmt, fnObj types.Object) (string, 
 	}
 	elemT := keys.Type().Underlying().(*types.Slice).Elem()
 	q := core.QualName(core.CalleeObj(info, sc))
+	// `for _, k := range keys` walks the sorted keys front to back: the order in the slice must then be descending
+	fwd, desc := list[3].(*ast.RangeStmt)
+	if desc {
+		if fwd.Tok != token.DEFINE || !w.isIdent(fwd.X, keys) || fwd.Value == nil || (fwd.Key != nil && types.ExprString(fwd.Key) != "_") {
+			return "", und("deterministic arm: range over the sorted keys")
+		}
+	}
 	switch q {
 	case "sort.Strings", "sort.Ints", "sort.Float64s", "slices.Sort":
 		if basicKind(elemT) == types.Bool {
 			return "", und("library sort on bool keys")
 		}
+		if desc {
+			return "", fmt.Errorf("deterministic arm: keys sorted ascending by %s are walked front to back into a buffer filled backwards: descending key order on the wire", q)
+		}
 	case "sort.Slice", "sort.SliceStable":
 		if len(sc.Args) != 2 {
 			return "", und("sort.Slice arity")
 		}
-		if err := w.checkLess(sc.Args[1], keys, elemT); err != nil {
+		if err := w.checkLess(sc.Args[1], keys, elemT, desc); err != nil {
 			return "", err
 		}
 	default:
 		return "", fmt.Errorf("deterministic arm: %s is not a recognised sort of the key slice", q)
+	}
+	if desc {
+		w.e.set(keys, "$keys")
+		le := w.e.child()
+		le.set(info.ObjectOf(fwd.Value.(*ast.Ident)), "elem($keys)")
+		if fnObj == nil {
+			saved := w.e
+			w.e = le
+			sub := &wout{}
+			err := w.stmts(fwd.Body.List, sub, nil)
+			w.e = saved
+			if err != nil {
+				return "", err
+			}
+			w.inlineEntry = substW(sub.ws, coll+"[elem($keys)]", "val("+coll+")", "elem($keys)", "key("+coll+")")
+			return coll, nil
+		}
+		if err := w.callEntry(fwd.Body.List, (&keyEnv{le}).env, coll, "elem($keys)", fnObj); err != nil {
+			return "", err
+		}
+		return coll, nil
 	}
 	// reverse loop
 	fs, ok := list[3].(*ast.ForStmt)
@@ -435,7 +481,7 @@ type keyEnv struct{ *env }
 // Keys are touched only through comparisons, so {a<b, a=b, a>b} (for bool the
 // four value pairs) is exhaustive. It must be the strict order `<` of
 // order.GenericKeyOrder (false < true for bool).
-func (w *encWalker) checkLess(fn ast.Expr, keys types.Object, elemT types.Type) error {
+func (w *encWalker) checkLess(fn ast.Expr, keys types.Object, elemT types.Type, desc bool) error {
 	info := w.e.info
 	fl, ok := fn.(*ast.FuncLit)
 	if !ok || len(fl.Body.List) != 1 {
@@ -550,8 +596,15 @@ func (w *encWalker) checkLess(fn ast.Expr, keys types.Object, elemT types.Type) 
 			return err
 		}
 		want := cs.a.n < cs.b.n
+		how := "GenericKeyOrder (ascending, false<true), the sorted keys being walked from the last to the first,"
+		if desc {
+			// the keys are walked front to back while the buffer is filled from its end: descending order in the slice is
+			// ascending order on the wire
+			want = cs.a.n > cs.b.n
+			how = "GenericKeyOrder (ascending, false<true) on the wire, the sorted keys being walked front to back into a buffer filled backwards,"
+		}
 		if got.b != want {
-			return fmt.Errorf("sort comparator returns %v for keys ordered a%sb; GenericKeyOrder (ascending, false<true) demands %v", got.b, ord3(cs.a.n, cs.b.n), want)
+			return fmt.Errorf("sort comparator returns %v for keys ordered a%sb; %s demands %v", got.b, ord3(cs.a.n, cs.b.n), how, want)
 		}
 	}
 	return nil
